@@ -206,3 +206,52 @@ def extra_checks(tier, rng, findings):
         if k is not None:
             viol.append((k if k != 'model-error' else 'impl-violation', c + '   [release build]', i, m, s))
     return {'violations': viol[:50], 'coverage': {'release_rerun': {'cases': len(cases), 'mismatches': len(viol), 'cargo_s': round(secs, 1)}}}
+
+
+# ----------------------------------------------------------------------------------------------
+# (G) generated facts: the first-limb block of `inv_ring` (seed constants, number of Newton steps)
+
+GEN_REL = 'Ruint/Gen/InvRingConsts.lean'
+
+
+def _extract_inv(src):
+    import re
+    m = re.search(r'pub fn inv_ring\(self\) -> Option<Self> \{(.*?)\n    \}\n', src, re.S)
+    if not m:
+        return None
+    body = m.group(1)
+    c2 = re.search(r'const W2: Wrapping<u64> = Wrapping\((\d+)\);', body)
+    c3 = re.search(r'const W3: Wrapping<u64> = Wrapping\((\d+)\);', body)
+    seed = re.search(r'let mut inv = \(n \* W3\) \^ W2;', body)
+    steps = len(re.findall(r'^\s*inv \*= W2 - n \* inv;', body, re.M))
+    if not (c2 and c3 and seed and steps):
+        return None
+    return {'W2': int(c2.group(1)), 'W3': int(c3.group(1)), 'steps': steps}
+
+
+def translate(repo, lean):
+    import os
+    path = os.path.join(lean, GEN_REL)
+    try:
+        ex = _extract_inv(open(os.path.join(repo, 'src', 'mul.rs')).read())
+    except OSError:
+        ex = None
+    if ex is None:
+        return {'changed': False, 'obligations': [], 'unavailable': ['inv_ring first-limb block: anchors not found in src/mul.rs (tie skipped, committed Gen file kept)']}
+    L = ['import Ruint.Base',
+         '/-! GENERATED by tools/props/c02.py (`translate`) from `src/mul.rs` (`inv_ring`) on every check run — do not edit. -/',
+         'namespace Ruint.Gen.InvRing', 'open Ruint', '',
+         '/-- `W2`, `W3` of the source -/',
+         'def w2 : Nat := %d' % ex['W2'], 'def w3 : Nat := %d' % ex['W3'], '',
+         '/-- `inv *= W2 - n * inv` on `Wrapping<u64>` -/',
+         'def step (n inv : Nat) : Nat := (inv * ((w2 + W - (n * inv) % W) % W)) % W', '',
+         '/-- `let mut inv = (n * W3) ^ W2;` followed by the %d Newton lines of the source -/' % ex['steps'],
+         'def inv64 (n : Nat) : Nat :=', '  let inv := ((n * w3) % W) ^^^ w2']
+    L += ['  let inv := step n inv'] * ex['steps']
+    L += ['  inv', '', 'end Ruint.Gen.InvRing']
+    text = '\n'.join(L) + '\n'
+    old = open(path).read() if os.path.exists(path) else None
+    if old != text:
+        os.makedirs(os.path.dirname(path), exist_ok=True)
+        open(path, 'w').write(text)
+    return {'changed': old is not None and old != text, 'obligations': [], 'extracted': ex, 'file': GEN_REL}
